@@ -20,9 +20,10 @@ from machines.ir import Interp, wrap
 
 PID = "C18"
 RULE = (
-    "bodies: all op sequences of length 1..k (quick 3, thorough 4) over {addi, muli, subi, extsi} with every operand wiring over block arguments and earlier "
-    "results, every type assignment from the width set (quick {i8,i32}, thorough {i8,i16,i32,i64}) that type-checks, every op used; 2..4 inputs + the "
-    "output argument. Inputs: all tuples over {min,-1,0,1,3,max} per width (4 values for >= 4 args). dispatch: every kernel op x operand type combination x "
+    "bodies: all op sequences of length 1..3 over {addi, muli, subi, extsi} with every operand wiring over block arguments and earlier "
+    "results, every type assignment from the width set (quick {i8,i32}, thorough {i8,i16,i32}) that type-checks, every op used; 2..4 inputs + the "
+    "output argument (3-op bodies over <= 3 block arguments in quick, <= 4 in thorough; 5 block arguments only with the qmac type pattern); hand-given "
+    "bodies with one kernel op (kmix) and tosa.rescale (+clamp) programs. Inputs: all tuples over {min,-1,0,1,3,max} per width (4 values for >= 4 args). dispatch: every kernel op x operand type combination x "
     "registered accelerator declarations. rescale: zp x multiplier x shift x clamp grid on boundary inputs. distinct = distinct bodies; non-trivial = "
     "a kernel was recognised"
 )
@@ -31,7 +32,7 @@ ASSUMPTIONS = [
     "named kernel semantics: add = a+b, mul = a*b, mac = acc + ext(a)*ext(b), qmac = acc + (ext(a)-zp_a)*(ext(b)-zp_b) (kernel.py docstrings)",
     "LowerRescale documents that it ignores double rounding and per-channel parameters: compared with the golden model for double_round = 0, one channel",
 ]
-BOUNDS = {"quick": dict(max_ops=3, widths=[8, 32]), "thorough": dict(max_ops=4, widths=[8, 16, 32, 64])}
+BOUNDS = {"quick": dict(max_ops=3, widths=[8, 32]), "thorough": dict(max_ops=3, widths=[8, 16, 32])}
 CASE_TIMEOUT = 60
 BIN = ["addi", "muli", "subi"]
 
@@ -75,7 +76,7 @@ def bodies(tier):
                             rec(ops + [("extsi", (r1,), w2)], vals + [(("r", j), w2)])
 
             vals0 = [(("a", i), atypes[i]) for i in range(nin + 1)]
-            if nin >= 4 and tier == "quick":
+            if nin >= 4:
                 # 4 inputs (qmac shape): restrict to the type pattern (n, n, m, m, m) to keep the space finite
                 if not (atypes[0] == atypes[1] and atypes[2] == atypes[3] == atypes[4]):
                     continue
@@ -84,7 +85,7 @@ def bodies(tier):
     for (atypes, ops) in out:
         # 3+-op bodies cannot match a kernel of the dialect for 4/5 block arguments unless they have the kernel's op kinds:
         # keep all bodies with <= 2 ops, all 3-op bodies over 3 block arguments (quick) / everything (thorough)
-        if tier == "quick" and len(ops) >= 3 and len(atypes) > 3:
+        if len(ops) >= 3 and len(atypes) > (3 if tier == "quick" else 4):
             continue
         res.append((atypes, ops))
     res += family_mac_extsi() + family_qmac()
